@@ -46,6 +46,11 @@ IsQuote(c) == c \in {34, 39}
 \* strict mode = RFC 8259 only (used as the "independent parser" of the serializer's output):
 \* double quotes, quoted keys, RFC number grammar, RFC escapes
 Strict(o) == "strict" \in DOMAIN o /\ o.strict
+\* longest string (decoded bytes) a document of this build can hold (ARDUINOJSON_STRING_LENGTH_SIZE); a longer
+\* string or key that is to be STORED gives NoMemory once it has been read to its end (the string buffer
+\* grows 31, 63, 127, ... and the step beyond the maximum is refused); skipped strings have no limit
+MaxStr(o) == IF "maxstr" \in DOMAIN o THEN o.maxstr ELSE 2000000000
+TooLong(b, o) == Len(b) > MaxStr(o)
 IsQuoteO(c, o) == IF Strict(o) THEN c = 34 ELSE IsQuote(c)
 IsAlpha(c) == (c >= 65 /\ c <= 90) \/ (c >= 97 /\ c <= 122)
 CanBeInNumber(c, o) ==
@@ -124,7 +129,7 @@ Unescape(c) ==
 RECURSIVE QuotedBody(_, _, _, _, _, _)
 QuotedBody(inp, p, stop, o, acc, hi) ==
   LET c == Cur(inp, p) IN
-  IF c = stop THEN [code |-> "Ok", b |-> acc, p |-> p + 1]
+  IF c = stop THEN [code |-> IF TooLong(acc, o) THEN "NoMemory" ELSE "Ok", b |-> acc, p |-> p + 1]
   ELSE IF c = 0 THEN [code |-> "IncompleteInput", b |-> acc, p |-> p + 1]
   ELSE IF c = 92 THEN
     LET e == Cur(inp, p + 1) IN
@@ -165,7 +170,7 @@ ParseKey(inp, p, o) ==
   THEN LET r == QuotedBody(inp, p + 1, Cur(inp, p), o, <<>>, 0) IN [code |-> r.code, b |-> r.b, p |-> r.p, ld |-> FALSE]
   ELSE LET r == NonQuotedRun(inp, p, <<>>) IN
        IF r.b = <<>> \/ Strict(o) THEN [code |-> "InvalidInput", b |-> <<>>, p |-> p, ld |-> TRUE]
-       ELSE [code |-> "Ok", b |-> r.b, p |-> r.p, ld |-> TRUE]
+       ELSE [code |-> IF TooLong(r.b, o) THEN "NoMemory" ELSE "Ok", b |-> r.b, p |-> r.p, ld |-> TRUE]
 
 SkipKey(inp, p) ==
   IF IsQuote(Cur(inp, p))
